@@ -19,6 +19,9 @@ type SrcCase struct {
 	Fresh bool `json:"fresh,omitempty"`
 	// ReaderFirst (with Pre > 0): the reader is created before the file is placed in its set
 	ReaderFirst bool `json:"readerFirst,omitempty"`
+	// Style 1: the grammar written like the library's JSON example (tokens left-trimmed, base
+	// alternative first, Trim around the root) instead of Trim around every token
+	Style int `json:"style,omitempty"`
 }
 
 func (c *SrcCase) Describe() string {
@@ -29,6 +32,7 @@ func (c *SrcCase) Describe() string {
 }
 
 var arithP = arithParser()
+var arithP1 = arithParserStyle(1)
 
 func checkC05(ci interface{}, st *Stats) error {
 	c := ci.(*SrcCase)
@@ -40,15 +44,21 @@ func checkC05(ci interface{}, st *Stats) error {
 	} else {
 		st.Class("grammar value shared with earlier cases")
 	}
-	return checkArithAt(c.Src, c.Pre, st, c.Fresh, c.ReaderFirst)
+	if c.Style == 1 {
+		st.Class("grammar in the JSON example's style (left-trimmed tokens, trimmed root)")
+	}
+	return checkArithAt(c.Src, c.Pre, st, c.Fresh, c.ReaderFirst, c.Style == 1)
 }
 
 func checkArith(s string, st *Stats) error { return checkArithAt(s, 0, st) }
 
 func checkArithAt(s string, pre int, st *Stats, fresh ...bool) error {
-	p := arithP
+	p, style := arithP, 0
+	if len(fresh) > 2 && fresh[2] {
+		p, style = arithP1, 1
+	}
 	if len(fresh) > 0 && fresh[0] {
-		p = arithParser()
+		p = arithParserStyle(style)
 	}
 	want, werr := refEval(s)
 	if st != nil {
@@ -193,7 +203,7 @@ func init() {
 			if rapid.IntRange(0, 4).Draw(t, "placed") == 2 {
 				pre = rapid.SampledFrom([]int{1, 2, 5, 20, 300, 65536}).Draw(t, "pre")
 			}
-			return &SrcCase{Src: s, Pre: pre, Fresh: rapid.Bool().Draw(t, "fresh"), ReaderFirst: rapid.Bool().Draw(t, "readerFirst")}
+			return &SrcCase{Src: s, Pre: pre, Fresh: rapid.Bool().Draw(t, "fresh"), ReaderFirst: rapid.Bool().Draw(t, "readerFirst"), Style: rapid.IntRange(0, 2).Draw(t, "style") / 2}
 		},
 		Check: checkC05,
 	})
